@@ -1,0 +1,29 @@
+// Copyright 2025 Democratized Data Foundation
+//
+// Use of this software is governed by the Business Source License
+// included in the file licenses/BSL.txt.
+//
+// As of the Change Date specified in that file, in accordance with
+// the Business Source License, use of this software will be governed
+// by the Apache License, Version 2.0, included in the file
+// licenses/APL.txt.
+
+package graphql
+
+import "github.com/sourcenetwork/defradb/errors"
+
+const (
+	errFragmentCycle  string = "fragment spreads itself"
+	errInvalidRequest string = "request could not be validated"
+)
+
+// NewErrFragmentCycle returns an error for a request in which a fragment (directly or through
+// other fragments) spreads itself.
+func NewErrFragmentCycle(name string) error {
+	return errors.New(errFragmentCycle, errors.NewKV("Fragment", name))
+}
+
+// NewErrInvalidRequest returns an error for a request on which validation itself failed.
+func NewErrInvalidRequest(cause any) error {
+	return errors.New(errInvalidRequest, errors.NewKV("Cause", cause))
+}
